@@ -1,9 +1,27 @@
 import Driver.Codec
-/-! Protocol ops of the `Lines` cluster: decode, call the model, print. -/
+import XdocModel.Static
+import XdocModel.Example
+/-! Protocol ops of the `Lines` cluster (C08): decode, call the model, print. -/
 namespace Xdoc.Driver
-open Xdoc
+open Xdoc Static
+
+def decFailKind (s : String) : FailKind :=
+  if s == "gotwant" then .gotWant else if s == "repr" then .reprError else if s == "compile" then .compile
+  else if s == "import" then .importError else if s == "loop" then .existingLoop
+  else if s == "directive" then .directive else .exception
 
 def opsLines : List String → Option String
+  | ["docstart", d, src, endline] =>
+    some (match docLines (decStrList src) ⟨decStr d, endline.toNat!⟩ with
+      | .error _ => "error:IndexError"
+      | .ok (a, b) => toString a ++ "," ++ toString b)
+  | ["end_ok", trip, line] => some (encBool (endOk (decStr trip) (decStr line)))
+  | ["start_ok", trip, line] => some (encBool (startOk (decStr trip) (decStr line)))
+  | ["failed_lineno", lineno, off, nexec, nwant, kind, tb] =>
+    let p : Part := { execLines := List.replicate nexec.toNat! [],
+                      wantLines := if nwant.toNat! == 0 then none else some (List.replicate nwant.toNat! []),
+                      lineOffset := off.toNat! }
+    some (toString (failedLineno lineno.toNat! p { kind := decFailKind kind, partIdx := 0, tbLineno := tb.toNat! }))
   | _ => none
 
 end Xdoc.Driver
